@@ -257,6 +257,9 @@ pub struct Cfg {
     pub max_chunks: u16,
     pub max_pages: usize,
     pub max_states: usize,
+    /// true: a divergence from the reference machine counts as a failure (C13, C08); false: only panics do
+    /// (C12) — diverged successors are still not expanded, so the explored region is the same.
+    pub lockstep: bool,
 }
 
 pub struct Node {
@@ -377,7 +380,9 @@ pub fn explore(cfg: &Cfg, rep: &mut Report, on_step: &mut dyn FnMut(&[Node], usi
             on_step(&nodes, i, &m, &out, rep);
             if out.panic.is_some() || !out.diffs.is_empty() {
                 // implementation and model are out of step: do not explore the product of two diverged machines
-                failing += 1;
+                if cfg.lockstep || out.panic.is_some() {
+                    failing += 1;
+                }
                 continue;
             }
             if pair.model.pending.len() > cfg.max_pending || pair.model.chunks > cfg.max_chunks || pair.model.pages.len() > cfg.max_pages {
